@@ -162,4 +162,76 @@ CLAIMS = {
         "predicate and re-demonstrated on every run. Trusted: CrossHair/z3, identifier normalisation.",
         "technique": TECH_S,
     },
+    "C13": {
+        "text": "Symbolic execution (CrossHair) of the real Service, Application, SoftwareManager, Node and HostNode code "
+        "for all 13 service and 8 application types shipped: an inductive step from every operating, health and node-"
+        "power state with unbounded durations and countdowns, checked against the documented request table "
+        "(action_masking.rst, software.rst, enum docstrings), the payload-inertness rule (non-running software handles "
+        "no payload, running healthy software does) and the open-port rule; bounded conformance runs of 2-4 events "
+        "with power events against a reference machine with a band timing oracle; exhaustive 2-3 operation install/"
+        "uninstall sequences with agreement of software_manager.software, node.services/applications, request routes, "
+        "port mapping, open ports and describe_state(); uninstall with live database connections and re-install.",
+        "note": "Timing is verified to a one-tick tolerance band (d <= n <= max(d+1, 2)) because the docs do not pin the "
+        "convention; payloads are one representative concrete payload per type; longer sequences only through the "
+        "one-step induction over the written invariant. One recorded open finding (single-owner port mapping, harness "
+        "port_sharing, pair >= 1) is excluded by its predicate and re-demonstrated on every run. Trusted: CrossHair/z3.",
+        "technique": TECH_S,
+    },
+    "C14": {
+        "text": "Symbolic execution (CrossHair) of the real Software/Service/Application, File/Folder/FileSystem, Node and "
+        "DatabaseService code through Simulation.apply_request and pre_timestep/apply_timestep against a shadow record "
+        "of every item's (true, visible, deleted) state written from the property statement: inductive-step harnesses "
+        "from an arbitrary pre-state of a written representation invariant (every enum member for true and visible "
+        "health, solver-chosen durations and countdowns, node ON/OFF, file live/deleted, folder deleted), one of 16 "
+        "operations incl. compromise during a fix, overlapping scans and power loss/return, followed tick by tick "
+        "until every timer has run out; bounded runs of 2-4 operations from the real initial state; a two-node "
+        "DatabaseService fix/restore harness.",
+        "note": "Durations and countdowns 0..2 (quick) / 0..4 (thorough), one or two files, one node (two for db_fix). "
+        "Network-borne attacks and install events are not driven. Where the statement is silent one reading is fixed "
+        "(listed in the harness ASSUMPTIONS). Trusted: CrossHair/z3, the representation invariant.",
+        "technique": TECH_S,
+    },
+    "C15": {
+        "text": "Bounded symbolic model checking of the real file-system code operation by operation through "
+        "Simulation.apply_request and the agent action classes' form_request: an inductive step takes one operation out "
+        "of a 152-operation alphabet from every pre-state shape of a written representation invariant (77 shapes quick, "
+        "all 185 thorough; counters, countdowns, durations and access counts unbounded solver integers; every health "
+        "member in the thorough tier) and re-establishes it; exhaustive runs of 2 (quick) to 4 (thorough) operations "
+        "from the real initial states. Checked after every operation: live/deleted partition by object identity, "
+        "deleted flags, live-name uniqueness, request routes, reported state, per-tick counters, unavailability of "
+        "deleted items, creating an existing name refused or a no-op and never raising.",
+        "note": "File and folder names are concrete representatives (the code only compares names with ==); copy_file / "
+        "move_file have no request route and are not covered; node ON throughout. Trusted: CrossHair/z3, the invariant.",
+        "technique": TECH_S,
+    },
+    "C17": {
+        "text": "Bounded symbolic model checking of the real DatabaseService / DatabaseClient / FTP / red-application code: "
+        "DatabaseService.receive for every member of the node, service, software-health and file-health enums, any "
+        "subset of issued connections, any integer session limit and every payload kind (connections only for the "
+        "right password on a RUNNING service on an ON node below capacity; queries only on issued, unclosed "
+        "connections with the stated health effects; disconnects only by the owner); DatabaseClient bookkeeping "
+        "against solver-chosen server replies; on a real routed network every 2-operation (quick) / 3-operation and "
+        "selected 4-operation (thorough) sequence out of 38 operations from a warm start against a reference "
+        "'issued and not closed' set and 'health at backup time'; backup / damage / block / restore scenarios and the "
+        "red applications.",
+        "note": "Passwords and ids from small representative alphabets (the code only tests equality and membership), "
+        "well-formed payloads only, liveness demanded only in the healthy case, link bandwidth raised so that C18 never "
+        "interferes, restart/fix/power timing not asserted. Trusted: CrossHair/z3.",
+        "technique": TECH_S,
+    },
+    "C20": {
+        "text": "Inventory conformance over a generated scenario family: the parsed scenario dict of a host-router-server "
+        "scenario is assembled from 11 solver-chosen presence bits (users, extra folder/files, static and default "
+        "route, a second ACL rule at a solver-chosen position, listen ports, fixing-duration option, simulation "
+        "defaults, a node declared OFF, explicit node durations, re-declared pre-installed software), bandwidth and a "
+        "key-order permutation of the mappings the loader iterates; the real PrimaiteGame.from_config builds it and an "
+        "inventory of the built object graph (nodes, addresses, links+bandwidth, routes, ACL rules at positions, "
+        "software with options and state, users, folders/files, agents, durations) is compared with an inventory "
+        "derived independently from the dict; the permuted scenario builds an identical simulation; the shipped "
+        "scenario files with an RL agent go through the same comparison.",
+        "note": "The claim starts at the parsed dict (PyYAML's C parser is outside the encoding); all inputs are finite "
+        "choices - the solver enumerates the combinations (4 bits coupled pairwise per quick job, all 2^11 in thorough). "
+        "Episode-list schedules and plugin node types are not covered. Trusted: CrossHair/z3, the reference inventory.",
+        "technique": TECH_S,
+    },
 }
